@@ -7,4 +7,5 @@ INVARIANT PivotConservesSum
 INVARIANT JoinLaws
 INVARIANT RoundTrips
 INVARIANT CellsKeptWithRow
+INVARIANT ReorderKeepsRows
 CHECK_DEADLOCK FALSE
